@@ -163,7 +163,7 @@ fn gen_clustered_range(r: &mut Rng) -> Value {
     let col = |name: &str, null_pct: u8, unique: bool| ColSpec { name: name.into(), cty: ColTy::I64, null_pct, boundary: false, special: false, unique };
     let nb = 1 + r.below(3) as usize;
     let cuts: Vec<usize> = (0..nb).map(|i| n * (i + 1) / nb - n * i / nb).collect();
-    let cat = Catalog { tables: vec![TableSpec { name: "t0".into(), cols: vec![col("k", 0, true), col("v", 10, false), col("g", 0, false)], rows, cuts }] };
+    let cat = Catalog { tables: vec![TableSpec { cluster: None, name: "t0".into(), cols: vec![col("k", 0, true), col("v", 10, false), col("g", 0, false)], rows, cuts }] };
     // a bound: a row-group boundary (first key of a row group), boundary +- 1, or a key inside a row group
     let bound = |r: &mut Rng| -> i64 {
         let b = base + (r.below((files * nrg) as u64 + 1) as usize * rg) as i64;
